@@ -95,7 +95,7 @@ def run(chk, replay=None):
         f_cov = ex.submit(run_tlc, "ExprOps_MC", X.class_cfg(sigs, init="ClassInitD1", leafs=("x", "y"), full_quantification=True), workers=1, coverage=True, timeout=600)
         f_dev = ex.submit(run_tlc, "ExprOps_MC", X.class_cfg(sigs, dev="DevDeepAstuple", leafs=("x", "y"), outer=["A21e"], inner=["B10e"]), workers=1, timeout=600)
         f_mix = ex.submit(run_tlc, "ExprOps_MC", X.class_cfg(sigs, init="MixInit", mixed=True, leafs=("x", "y"),
-                                                             full_quantification=(tier == "thorough")), workers=1, coverage=True, timeout=1700)
+                                                             full_quantification=(tier == "thorough")), workers=1, coverage=(tier == "thorough"), timeout=1700)
         f_mixdev = ex.submit(run_tlc, "ExprOps_MC", X.class_cfg(sigs, init="MixInit", mixed=True, leafs=("x", "y"), dev="DevBoundIndexSubs"),
                              workers=1, timeout=600)
         f_two = ex.submit(run_tlc, "ExprOps_MC", X.class_cfg(sigs, init="ClassInitD1", leafs=("x", "y"), max_ops=2), workers=1, timeout=1700) if tier == "thorough" else None
@@ -112,7 +112,7 @@ def run(chk, replay=None):
     mtot = action_totals(mix)
     if not mix.ok:
         raise Machinery(f"the specification violates its own laws on the mixed-map universe ({mix.violated})\n" + "\n".join(mix.error_trace[:60]))
-    if mtot.get("Xreplace", 0) == 0 or mtot.get("SubsMap", 0) == 0 or mixdev.ok:
+    if (tier == "thorough" and (mtot.get("Xreplace", 0) == 0 or mtot.get("SubsMap", 0) == 0)) or mixdev.ok:
         raise Machinery(f"vacuous / insensitive mixed-map model check: {mtot}, BoundIndexSubs deviation violates: {mixdev.violated}")
     chk.part("laws_mixed_maps", transitions_per_action=mtot, deviation_BoundIndexSubs_violates=mixdev.violated,
              universe="PoolSum over f(x,i) and over every class slot; PoolSum nested in every class slot; shadowed index; maps "
@@ -130,9 +130,9 @@ def run(chk, replay=None):
     t0 = time.time()
     behs = X.simulate_buckets(sigs, per_outer=220 if tier == "thorough" else 70, depth=7 if tier == "thorough" else 6, seed=chk.seed + 3)
     t_sim = time.time() - t0
-    rep = X.ClassReplayer(chk, mode="c14", doit_budget_s=600 if tier == "thorough" else 25,
+    rep = X.ClassReplayer(chk, mode="c14", doit_budget_s=600 if tier == "thorough" else 18,
                           eval_classes=[e.cls for e in embs if e.has_eval and (e.kind == "decorated" or e.name == "PoolSum")])
-    info = X.run_replays(rep, embs, behs, rng, budget_s=700 if tier == "thorough" else 38, exhaustive_triples=(tier == "thorough"),
+    info = X.run_replays(rep, embs, behs, rng, budget_s=700 if tier == "thorough" else 26, exhaustive_triples=(tier == "thorough"),
                          limit_s=20 if tier == "thorough" else 5)
     chk.cov["traces_validated_against_impl"] += rep.steps and len(rep.covered_triples) + len(embs)
     chk.part("simulation_replay", behaviours_generated=len(behs), steps=rep.steps, states_checked=rep.states, by_action=rep.by_action,
@@ -149,7 +149,7 @@ def run(chk, replay=None):
     minfo = X.run_mixed_replays(rep, embs, mbehs, rng, budget_s=150 if tier == "thorough" else 9, limit_s=10 if tier == "thorough" else 4)
     chk.part("mixed_map_replay", behaviours_generated=len(mbehs), wall_s=round(time.time() - t1, 1), **minfo)
     chk.cov["traces_validated_against_impl"] += minfo["behaviours_replayed"]
-    if minfo["xreplace_and_subs_dict_steps"] == 0:
+    if minfo["xreplace_and_subs_dict_steps"] == 0 or rep.by_action.get("SubsMap", 0) == 0:
         raise Machinery("no mixed-map step was replayed")
     missing = sorted({e.name for e in embs} - rep.covered_outer)
     if missing:
